@@ -150,7 +150,7 @@ def _lower_generic(insns, ops, arch):
             label_of_block[len(blocks) - 1] = m.group(1)
             continue
         blocks[-1].append(ins)
-        if re.match(r"(jae|jnz|b\.hs|b\.ne)\b", ins):
+        if re.match(r"(j[a-z]+|b\.[a-z]+)\b", ins):
             blocks.append([])
     blocks = [b for b in blocks]
     label_to_idx = {}
@@ -178,9 +178,9 @@ def _lower_generic(insns, ops, arch):
                 elif mn == "cmp":
                     x, wx = a.val(o[0]); y, _ = a.val(o[1])
                     a.cur.append("cmp_a = %s; cmp_b = %s; cmp_w = %d;" % (x, y, wx))
-                elif mn == "jae":
+                elif mn in X86_JCC_CMP:
                     tgt = label_to_idx[o[0].rstrip("fb")]
-                    a.cur.append("if cmp_a >= cmp_b { pc = %d; continue; }" % tgt)
+                    a.cur.append("if %s { pc = %d; continue; }" % (X86_JCC_CMP[mn], tgt))
                 elif mn == "mov":
                     d, w = a.dst(o[0]); a.set(d, w, a.val(o[1])[0])
                 elif mn == "cmovg":
@@ -212,9 +212,11 @@ def _lower_generic(insns, ops, arch):
                         raise LowerError("64-bit dec not modelled: " + ins)
                     a.set(d, w, "(%s as u32).wrapping_sub(1) as u64" % a.val(o[0])[0])
                     a.cur.append("zf = r_%s == 0;" % d)
-                elif mn == "jnz":
+                elif mn in ("jnz", "jne", "jz", "je"):
+                    # zero flag of the last flag-setting instruction that was modelled (dec / sub); after a plain `cmp`
+                    # the translator has no ZF model, so these are only accepted directly after dec/sub
                     tgt = label_to_idx[o[0].rstrip("fb")]
-                    a.cur.append("if !zf { pc = %d; continue; }" % tgt)
+                    a.cur.append("if %szf { pc = %d; continue; }" % ("!" if mn in ("jnz", "jne") else "", tgt))
                 else:
                     raise LowerError("unknown x86-64 mnemonic: " + ins)
             else:  # aarch64
@@ -228,12 +230,14 @@ def _lower_generic(insns, ops, arch):
                 elif mn == "cmp":
                     x, wx = a.val(o[0]); y, _ = a.val(o[1])
                     a.cur.append("cmp_a = %s; cmp_b = %s; cmp_w = %d;" % (x, y, wx))
-                elif mn == "b.hs":
+                elif mn in A64_BCC_CMP:
                     tgt = label_to_idx[o[0].rstrip("fb")]
-                    a.cur.append("if cmp_a >= cmp_b { pc = %d; continue; }" % tgt)
+                    a.cur.append("if %s { pc = %d; continue; }" % (A64_BCC_CMP[mn], tgt))
                 elif mn == "csel":
                     d, w = a.dst(o[0]); cond = o[3].strip()
-                    c = {"hi": "cmp_a > cmp_b", "hs": "cmp_a >= cmp_b"}.get(cond)
+                    c = {"hi": "cmp_a > cmp_b", "hs": "cmp_a >= cmp_b", "cs": "cmp_a >= cmp_b", "lo": "cmp_a < cmp_b",
+                         "cc": "cmp_a < cmp_b", "ls": "cmp_a <= cmp_b", "eq": "cmp_a == cmp_b", "ne": "cmp_a != cmp_b",
+                         "pl": "signed_ge0(cmp_a, cmp_b, cmp_w)", "mi": "!signed_ge0(cmp_a, cmp_b, cmp_w)"}.get(cond)
                     if c is None:
                         raise LowerError("unknown csel condition: " + ins)
                     x, y = a.val(o[1])[0], a.val(o[2])[0]
@@ -256,9 +260,9 @@ def _lower_generic(insns, ops, arch):
                     a.cur.append("cmp_a = %s; cmp_b = %s; cmp_w = 32;" % (x, y))
                     a.set(d, w, "(cmp_a as u32).wrapping_sub(cmp_b as u32) as u64")
                     a.cur.append("zf = r_%s == 0;" % d)
-                elif mn == "b.ne":
+                elif mn in ("b.ne", "b.eq"):
                     tgt = label_to_idx[o[0].rstrip("fb")]
-                    a.cur.append("if !zf { pc = %d; continue; }" % tgt)
+                    a.cur.append("if %szf { pc = %d; continue; }" % ("!" if mn == "b.ne" else "", tgt))
                 else:
                     raise LowerError("unknown aarch64 mnemonic: " + ins)
         nxt = "pc = %d; continue;" % (bi + 1) if bi + 1 < len(blocks) else "break;"
@@ -278,8 +282,16 @@ def lower_direct_bits(range_dec_text, arch):
             raise LowerError("asm operand `%s` missing or not `%s`" % (k, kind))
     if ops["range"][1] != "self.range" or ops["code"][1] != "self.code":
         raise LowerError("range/code are not bound to self.range/self.code")
-    if not re.search(r"let\s+limit\s*=\s*buf\.len\(\)\s*-\s*1\s*;", body):
-        raise LowerError("`limit = buf.len() - 1` binding not found")
+    m = re.search(r"let\s+limit\s*=\s*([^;]+);", body)
+    if not m:
+        raise LowerError("`let limit = ...;` binding not found")
+    limit_src = " ".join(m.group(1).split())
+    limit_expr = limit_src.replace("buf.len()", "(buf.len() as u64)")
+    if re.sub(r"\(buf\.len\(\) as u64\)|[0-9]+|\+|-|\(|\)|\s|\.saturating_sub|\.wrapping_sub", "", limit_expr):
+        raise LowerError("limit binding uses unknown vocabulary: " + limit_src)
+    limit_expr = re.sub(r"\b([0-9]+)\b", r"\1u64", limit_expr).replace(" - ", ".wrapping_sub(").replace(" + ", ".wrapping_add(")
+    # close the parentheses opened by the two replacements above
+    limit_expr = limit_expr + ")" * (limit_expr.count(".wrapping_sub(") + limit_expr.count(".wrapping_add("))
     m = re.search(r"self\.inner\.set_pos\((.*?)\);", body)
     if not m:
         raise LowerError("set_pos write-back not found")
@@ -298,10 +310,11 @@ def lower_direct_bits(range_dec_text, arch):
     lines.append("/// generated by /verif/lib/lower.py from the asm! block of `%s`" % fname)
     lines.append("pub(crate) fn model_direct_bits_%s(range: &mut u32, code: &mut u32, pos: &mut usize, buf: &[u8], count: u32, oob: &mut bool) -> i32 {" % arch)
     lines.append("    #[inline(always)] fn ld(buf: &[u8], idx: u64, oob: &mut bool) -> u8 { if (idx as usize) < buf.len() && idx < (1u64 << 60) { buf[idx as usize] } else { *oob = true; 0 } }")
+    lines.append("    #[inline(always)] fn signed_ge0(a: u64, b: u64, w: u32) -> bool { if w == 64 { (a.wrapping_sub(b) as i64) >= 0 } else { ((a as u32).wrapping_sub(b as u32) as i32) >= 0 } }")
     lines.append("    let (mut cmp_a, mut cmp_b, mut cmp_w, mut sf, mut zf) = (0u64, 0u64, 64u32, false, false);")
     for r in regs:
         init = {"range": "*range as u64", "code": "*code as u64", "pos": "*pos as u64", "count": "count as u64", "result": "0u64",
-                "buf_ptr": "0u64", "limit": "(buf.len() - 1) as u64"}.get(r, "0u64")
+                "buf_ptr": "0u64", "limit": limit_expr}.get(r, "0u64")
         lines.append("    let mut r_%s: u64 = %s;" % (r, init))
     lines.append("    let mut pc = 0u32;")
     lines.append("    loop {")
@@ -319,8 +332,20 @@ def lower_direct_bits(range_dec_text, arch):
     lines.append("    r_result as u32 as i32")
     lines.append("}")
     txt = "\n".join(lines)
-    return txt, {"arch": arch, "instructions": len(insns), "blocks": len(blocks), "writeback": wb, "options": options.strip()}
+    return txt, {"arch": arch, "instructions": len(insns), "blocks": len(blocks), "writeback": wb, "limit": limit_src, "options": options.strip()}
 
+
+# unsigned/signed conditions after `cmp a, b` (cmp_a, cmp_b hold the zero-extended operands, cmp_w the width)
+X86_JCC_CMP = {
+    "jae": "cmp_a >= cmp_b", "jnb": "cmp_a >= cmp_b", "jnc": "cmp_a >= cmp_b",
+    "ja": "cmp_a > cmp_b", "jnbe": "cmp_a > cmp_b",
+    "jb": "cmp_a < cmp_b", "jc": "cmp_a < cmp_b", "jnae": "cmp_a < cmp_b",
+    "jbe": "cmp_a <= cmp_b", "jna": "cmp_a <= cmp_b",
+}
+A64_BCC_CMP = {
+    "b.hs": "cmp_a >= cmp_b", "b.cs": "cmp_a >= cmp_b", "b.hi": "cmp_a > cmp_b",
+    "b.lo": "cmp_a < cmp_b", "b.cc": "cmp_a < cmp_b", "b.ls": "cmp_a <= cmp_b",
+}
 
 SIMD_MAP = {
     # intrinsic -> lambda(args) -> rust expr over i32 lanes
@@ -337,10 +362,17 @@ SIMD_STORE = ("_mm256_store_si256", "_mm_store_si128", "vst1q_s32")
 def lower_normalize(lz_encoder_text, variant):
     fname = "normalize_" + variant
     body = _fn_body(lz_encoder_text, fname)
-    if "normalize_scalar(prefix, norm_offset)" not in body or "normalize_scalar(suffix, norm_offset)" not in body:
-        raise LowerError("%s: prefix/suffix are not handled by normalize_scalar" % fname)
-    if not re.search(r"positions\.align_to_mut::<", body):
-        raise LowerError("%s: align_to_mut split not found" % fname)
+    body_nc = "\n".join(l.split("//")[0] for l in body.splitlines())
+    m = re.search(r"let\s*\(\s*prefix\s*,\s*chunks\s*,\s*suffix\s*\)\s*=\s*positions\.align_to_mut::<\s*(\w+)\s*>\(\)", body_nc)
+    if not m:
+        raise LowerError("%s: `(prefix, chunks, suffix) = positions.align_to_mut::<T>()` split not found" % fname)
+    lanes = {"__m256i": 8, "__m128i": 4, "int32x4_t": 4}.get(m.group(1))
+    if lanes is None:
+        raise LowerError("%s: unknown SIMD vector type %s" % (fname, m.group(1)))
+    prefix_scalar = "normalize_scalar(prefix, norm_offset)" in body_nc
+    suffix_scalar = "normalize_scalar(suffix, norm_offset)" in body_nc
+    if not re.search(r"for\s+chunk\s+in\s+chunks", body_nc):
+        raise LowerError("%s: loop over the aligned chunks not found" % fname)
     stmts = []
     stored = None
     # statements with intrinsic calls, in order
@@ -361,7 +393,20 @@ def lower_normalize(lz_encoder_text, variant):
              "pub(crate) fn model_lane_%s(p: i32, norm_offset: i32) -> i32 {" % variant]
     lines += ["    " + s for s in stmts]
     lines += ["    %s" % stored, "}"]
-    return "\n".join(lines), {"variant": variant, "statements": len(stmts)}
+    # whole-array model: unaligned prefix / aligned chunks / unaligned suffix, exactly as the source treats them
+    lines += ["",
+              "/// generated: `%s` on a whole slice whose unaligned prefix has `prefix_len` elements" % fname,
+              "pub(crate) fn model_normalize_%s(a: &mut [i32], norm_offset: i32, prefix_len: usize) {" % variant,
+              "    let n = a.len();",
+              "    let p = core::cmp::min(prefix_len, n);",
+              "    let end = p + (n - p) / %d * %d;" % (lanes, lanes)]
+    if prefix_scalar:
+        lines += ["    super::normalize_scalar(&mut a[..p], norm_offset);"]
+    lines += ["    let mut i = p;", "    while i < end { a[i] = model_lane_%s(a[i], norm_offset); i += 1; }" % variant]
+    if suffix_scalar:
+        lines += ["    super::normalize_scalar(&mut a[end..], norm_offset);"]
+    lines += ["}"]
+    return "\n".join(lines), {"variant": variant, "statements": len(stmts), "lanes": lanes, "prefix_scalar": prefix_scalar, "suffix_scalar": suffix_scalar}
 
 
 def lower_dispatch(range_dec_text, arch):
@@ -375,7 +420,7 @@ def lower_dispatch(range_dec_text, arch):
     expr = cond
     for a, b in (("self.inner.is_buffer()", "true"), ("self.inner.pos()", "pos"), ("self.inner.buf().len()", "len")):
         expr = expr.replace(a, b)
-    left = re.sub(r"\b(true|pos|len|count|as|usize|u32)\b|[0-9]+|&&|\|\||<=|>=|<|>|==|\+|-|\(|\)|\s", "", expr)
+    left = re.sub(r"\b(true|pos|len|count|as|usize|u32|u64)\b|\.div_ceil|\.min|\.max|\.saturating_sub|\.saturating_add|[0-9]+|&&|\|\||<=|>=|<|>|==|\+|-|\*|/|\(|\)|\s", "", expr)
     if left:
         raise LowerError("dispatch condition uses unknown vocabulary: %r in %r" % (left, cond))
     txt = "/// generated from the dispatch condition `%s`\npub(crate) fn model_dispatch_%s(pos: usize, len: usize, count: u32) -> bool {\n    %s\n}" % (cond, arch, expr)
